@@ -151,6 +151,14 @@ def analyse_loop_mean(ff: FuncFlow, inv_call: ast.Call) -> LoopMean:
     if isinstance(W, ast.Constant):
       lm.problems.append(('normaliser', f'normaliser is the constant {txt(W)}', W))
       return lm
+    # total taken from a dict keyed by client id (sum(d.values())) while the weighted sum adds up every occurrence delivered by the
+    # stream: a client id that occurs twice in the cohort is counted once in the total
+    for w in ff.deep_walk(W):
+      if isinstance(w, ast.Call) and isinstance(w.func, ast.Attribute) and w.func.attr == 'values' and isinstance(w.func.value, ast.Name):
+        if any(isinstance(v, (ast.DictComp, ast.Dict)) or (isinstance(v, ast.Call) and ff.ext(v.func) == 'builtins.dict') for v in ff.expand(w.func.value)):
+          lm.problems.append(('normaliser', f'normaliser {txt(W)[:60]} sums a dict keyed by client id (each id once) while the weighted sum '
+                              'adds every occurrence in the stream: the two disagree as soon as an id occurs twice', W))
+          return lm
     lm.unrecognised = f'normaliser {txt(W)} is not an accumulator variable'
     return lm
   wk = _acc_target_key(W)
